@@ -34,6 +34,8 @@ var Base, Dir, Tpl string
 func init() {
 	L2 = l2x.New(cache.NewL2InMemoryCache(), sop.InMemory)
 	sop.RegisterL2CacheFactory(sop.InMemory, func(sop.TransactionOptions) sop.L2Cache { return L2 })
+	L2B = l2x.New(L2.Inner(), ProcCacheType)
+	sop.RegisterL2CacheFactory(ProcCacheType, func(sop.TransactionOptions) sop.L2Cache { return L2B })
 	DIO = l2x.NewDIO()
 	fs.DirectIOSim = DIO
 	sop.Now = vhook.Now
@@ -51,6 +53,8 @@ func Cleanup() { os.RemoveAll(Base) }
 // ResetCaches gives the process cold caches: fresh in-memory L2, empty global L1, reset maintenance timers.
 func ResetCaches() {
 	L2.SetInner(cache.NewL2InMemoryCache())
+	L2B.SetInner(L2.Inner())
+	L2B.Fault, L2B.Trace, L2B.OnLocked, L2B.OnSet = nil, nil, nil, nil
 	L2.Fault = nil
 	L2.Trace = nil
 	L2.OnLocked = nil
@@ -120,6 +124,27 @@ var MaxTime time.Duration
 // Replicated switches every transaction made through NewTransaction to active/passive replication (folders
 // Dir/a and Dir/p) with erasure-coded blobs (1 data + 1 parity shard on Dir/e1 and Dir/e2).
 var Replicated bool
+
+// ProcCacheType is the L2 cache type under which "process 1" sees the shared L2 cache: sop keeps one global L1
+// cache per L2 cache type, so transactions created with it get an L1 (node MRU and handle cache) of their own
+// while every L2 call lands in the same cache content: what two processes sharing a Redis look like.
+const ProcCacheType = sop.L2CacheType(9001)
+
+// L2B is the decorator through which process 1 reaches the shared L2 content.
+var L2B *l2x.Cache
+
+// NewTransactionProc is NewTransaction for the given emulated process (0 = the default one).
+func NewTransactionProc(ctx context.Context, mode sop.TransactionMode, proc int) (sop.Transaction, error) {
+	if proc == 0 {
+		return NewTransaction(ctx, mode)
+	}
+	o := Opts(mode)
+	o.CacheType = ProcCacheType
+	if Replicated {
+		return infs.NewTransactionWithReplication(ctx, o)
+	}
+	return infs.NewTransaction(ctx, o)
+}
 
 // NewTransaction creates a transaction for the scenario folder(s), replicated or not.
 func NewTransaction(ctx context.Context, mode sop.TransactionMode) (sop.Transaction, error) {
